@@ -60,7 +60,8 @@ func vfieldValues(width int, remaining int) []uint64 {
 	if width == 8 {
 		mask = ^uint64(0)
 	}
-	vals := []uint64{mask /* -1 / 0xff.. */, 0, 1, mask >> 1 /* 0x7f.. */, (mask >> 1) + 1 /* 0x80.. */, uint64(remaining+1) & mask, uint64(1<<31-1) & mask}
+	vals := []uint64{mask /* -1 / 0xff.. */, 0, 1, mask >> 1 /* 0x7f.. */, (mask >> 1) + 1 /* 0x80.. */, uint64(remaining+1) & mask, uint64(1<<31-1) & mask,
+		2, 3, 4, 5, 8 /* small lengths: shorter than any header, just below / at / above the fixed part of a frame */}
 	seen := map[uint64]bool{}
 	var out []uint64
 	for _, v := range vals {
